@@ -53,6 +53,9 @@ func (f iterFam) source() string {
 	case "falsyyield":
 		// the first yielded value is falsy (0): it must still win over the later yield
 		return fmt.Sprintf("<{|i| S(%d); yield (i - i) if i < %d; yield 777; recur(i + %d)}>", s, l, d)
+	case "nilyield":
+		// the first yielded value is nil: it is still the value of this `next`
+		return fmt.Sprintf("<{|i| S(%d); yield (i if false) if i < %d; yield 777; recur(i + %d)}>", s, l, d)
 	case "twoparam":
 		// second parameter: nil unless given to new; carried along by recur
 		return fmt.Sprintf("<{|i, j| S(%d); yield [i, j] if i < %d; recur(i + %d, j)}>", s, l, d)
@@ -73,6 +76,8 @@ func (f iterFam) next(st iterState, fault bool) (val string, stop bool, errored 
 	switch f.kind {
 	case "falsyyield":
 		return "0", stop, errored, ns
+	case "nilyield":
+		return "nil", stop, errored, ns
 	case "twoparam":
 		return fmt.Sprintf("[%d, %s]", v, st.j), stop, errored, ns
 	}
@@ -94,7 +99,7 @@ func (f iterFam) nextInt(st iterState, fault bool) (val int64, stop bool, errore
 		return 0, false, true, ns
 	}
 	switch f.kind {
-	case "guard", "kw", "implicit", "falsyyield", "twoparam":
+	case "guard", "kw", "implicit", "falsyyield", "twoparam", "nilyield":
 		if st.i < f.lim {
 			return st.i, false, false, adv
 		}
@@ -226,7 +231,7 @@ func (c *c14Check) Run(seed, run uint64, rec []uint32, st Stats, only *Viol) []V
 	}
 	s.Histories++
 	// 1..2 generator literals
-	kinds := []string{"guard", "noguard", "recurfirst", "twoyields", "norecur", "kw", "slotafterrecur", "implicit", "implicit2", "falsyyield", "twoparam"}
+	kinds := []string{"guard", "noguard", "recurfirst", "twoyields", "norecur", "kw", "slotafterrecur", "implicit", "implicit2", "falsyyield", "twoparam", "nilyield"}
 	nf := 1 + t.Intn(2)
 	fams := make([]iterFam, nf)
 	env := object.NewEnclosedEnv(c.it.Global)
@@ -405,8 +410,11 @@ func (c *c14Check) Run(seed, run uint64, rec []uint32, st Stats, only *Viol) []V
 				svals = append(svals, sv)
 				cur = ns
 			}
-			if f.kind == "twoparam" && op != 3 {
-				op = 3 // arithmetic chains need int values: use A for this family
+			if (f.kind == "twoparam" || f.kind == "nilyield") && op != 3 {
+				op = 3 // arithmetic chains need int values: use A for these families
+			}
+			if f.kind == "nilyield" {
+				svals = nil // `A` is a list chain: nil values are visited but not collected
 			}
 			var line, want, opn string
 			switch op {
